@@ -105,6 +105,9 @@ pub struct Cfg {
     /// allow `ChildOf` under a visibility list: the caller guarantees that a group is visible as a whole (C10)
     #[serde(default)]
     pub children_any_vis: bool,
+    /// Replays of known findings only: perform operations that the generators suppress (never generated).
+    #[serde(default)]
+    pub no_exclusions: bool,
 }
 
 impl Default for Cfg {
@@ -129,6 +132,7 @@ impl Default for Cfg {
             timeout_ms: 10_000,
             big: false,
             children_any_vis: false,
+            no_exclusions: false,
         }
     }
 }
